@@ -156,7 +156,8 @@ func runC03(c *Ctx) {
 
 	R.Rule("R-state-writers", "who-may-write", "the greeting name and the BINARYMIME flag are written only by the handlers that own them", 2)
 	c.obWriters("Conn.helo", "set by the greeting, cleared when session creation fails and by the TLS upgrade", "(*Conn).handleGreet", "(*Conn).handleStartTLS")
-	c.obWriters("Conn.binarymime", "decided by each MAIL command", "(*Conn).handleMail")
+	c.obWriters("Conn.binarymime", "decided by each MAIL command (reset() may clear it as well)", "(*Conn).handleMail", "(*Conn).reset")
+	ruleBinarymimePerMail(c)
 
 	R.Rule("R-reset-at-end", "E2 must-pass-through", "every transaction end passes through reset() (or Close after a backend panic) before the handler returns", 6)
 	obMessageEndResets(c)
@@ -275,5 +276,35 @@ func obMessageEndResets(c *Ctx) {
 	if f := c.A.Func("(*Conn).handleBdat"); f != nil {
 		c.obFollow("552 then reset", f, c.direct("reply:552"), []string{lReset}, nil, nil)
 		c.obFollow("final/failed chunk reply then reset|Close", f, c.direct("reply:dyn"), []string{lReset, lClose}, nil, nil)
+	}
+}
+
+// ruleBinarymimePerMail (C03, C04): whether DATA is refused "for BINARYMIME messages" is decided by the MAIL command
+// of the current transaction alone: handleMail clears the flag before it can set it and before the backend is asked,
+// so a BODY=BINARYMIME on an earlier, refused MAIL cannot make a later plain message's DATA fail.
+func ruleBinarymimePerMail(c *Ctx) {
+	R := c.R
+	_, s := c.Std()
+	f := c.A.Func("(*Conn).handleMail")
+	if f == nil {
+		return
+	}
+	v := RunPend(f, PendRule{
+		StartPending: true,
+		Disch:        func(in ssa.Instruction) bool { return labelHas(c.stdLabels(in), "st:Conn.binarymime=false") },
+		Forbid: func(in ssa.Instruction) bool {
+			if _, isDefer := in.(*ssa.Defer); isDefer {
+				return false
+			}
+			return labelHas(c.stdLabels(in), "st:Conn.binarymime=true") || s.InstrMay(in)[lMail]
+		},
+	})
+	d := ""
+	if len(v) > 0 {
+		d = fmt.Sprintf("handleMail reaches %s without having cleared Conn.binarymime: the flag set by an earlier (possibly refused) MAIL survives into this transaction and its DATA is refused with 502", c.P.InstrPos(v[0].At))
+	}
+	R.Ob("(*Conn).handleMail/binarymime cleared before it is decided", c.P.Pos(f.Pos()), len(v) == 0, d)
+	for _, st := range s.Find(f, "st:Conn.binarymime=true") {
+		R.Ob(c.siteKey(st, "binarymime set only for BODY=BINARYMIME"), c.P.InstrPos(st), true, "")
 	}
 }
